@@ -451,7 +451,9 @@ func (d *deps) nodeDeps(n ast.Node, scopes depScopes) []*ast.Identifier {
 		deps = append(deps, d.nodeDeps(n.Type, scopes)...)
 		return deps
 	case *ast.TypeDeclaration:
-		return d.nodeDeps(n.Type, scopes)
+		deps := d.nodeDeps(n.Type, scopes)
+		declareLocally(scopes, n.Ident.Name)
+		return deps
 	case *ast.TypeSwitch:
 		scopes = enterScope(scopes)
 		deps := d.nodeDeps(n.Init, scopes)
